@@ -169,6 +169,16 @@ def streams(rng, tier):
                                 vs2[n - 1] = bad
                                 faults.append(dict(base, value=["vector", vs2]))
                                 faults.append(dict(base, value=["flaky", vs, j + 1, n]))
+                    for j in range(n):                              # None (or a promoting value) AND a bad value
+                        for q in range(n):
+                            if q == j:
+                                continue
+                            for first in (["N"], wider):
+                                if first is None:
+                                    continue
+                                vs = [list(g) for g in good]
+                                vs[j], vs[q] = first, bad
+                                faults.append(dict(base, value=["list", vs]))
                     if k[0] in ("list", "tuple") and k[1] and k[1][0][0] == "i" or k[0] == "idxv":
                         for j in range(n):                          # an invalid index at every position
                             for badidx in (n, -n - 1):
@@ -189,6 +199,10 @@ def streams(rng, tier):
             for k in (["int", 0], ["slice", None, None, None], ["idxv", [n - 1]]):
                 v = ["scalar", ["f", (0.5).hex()]] if k[0] != "slice" else ["list", [["f", (0.5).hex()]] * n]
                 faults.append({"op": "set", "vals": vals, "name": "x", "prime": True, "shared": False, "key": k, "value": v})
+            if n >= 2:
+                faults.append({"op": "set", "vals": vals, "name": "x", "prime": False, "shared": False,
+                               "key": ["slice", None, None, None],
+                               "value": ["list", [["N"]] + [["f", (0.5).hex()]] * (n - 1)]})
     out.append(("faults", faults))
     out.append(("tset", tset_cases(rng, tier)))
     out.append(("rename", rename_cases(rng, tier)))
